@@ -371,8 +371,8 @@ GSpawn(qe, g) ==
       HolderSame == {h \in Holder(j0) : F[h].ctx = c}
       \* a spawn is refused when it has no content or the (context, name) is taken; refused because the NAME is
       \* taken in another context is the formerly coded behaviour (table keyed by name), recognised as such
-      ByName == ~k.nocontent /\ HolderSame = {} /\ Holder(j0) # {} /\ Refusals # {}
-      refusedAsCoded == k.nocontent \/ HolderSame # {} \/ ByName
+      ByName == ~k.nocontent /\ ~k.refused /\ HolderSame = {} /\ Holder(j0) # {} /\ Refusals # {}
+      refusedAsCoded == k.nocontent \/ k.refused \/ HolderSame # {} \/ ByName
       values == k.values
       nv == Len(values)
       \* the lifecycle grammar over the frames of one incarnation, in id order
